@@ -13,7 +13,7 @@ package soymsg
 // expression).  The only place a node is given another node's name is the
 // equivNodeToRepNodes entry; it is made only after comparing the two String()s.
 //@ func setPlaceholderNames
-//@   props C13 C03 C10
+//@   props C13 C03 C10 C11
 //@   nosafety
 //@   modifies *
 //@   ghost curN ast.Node = nil
@@ -25,8 +25,8 @@ package soymsg
 //@   at call ast.Node.String#1 set othN = arg0
 //@   at call ast.Node.String#1 after set othS = res
 //@   at call mapupdate#1 assert[named-alike-only-if-identical-source-text;C03,C10] key == curN && val == othN && curS == othS
-//@   at call mapupdate#3 assert[unsuffixed-name-not-already-taken;C10] !haskey(m, key)
-//@   at call mapupdate#4 assert[suffixed-name-not-already-taken;C10] !haskey(m, key)
+//@   at call mapupdate#3 assert[unsuffixed-name-not-already-taken;C10,C11] !haskey(m, key)
+//@   at call mapupdate#4 assert[suffixed-name-not-already-taken;C10,C11] !haskey(m, key)
 //@   at call mapupdate#5 assert[representative-gets-the-name-it-is-filed-under;C03,C10] haskey(nameToRepNodes, val) && nameToRepNodes[val] == key
 //@   at call mapupdate#6 assert[equivalent-node-gets-its-representative's-name;C03,C10] haskey(equivNodeToRepNodes, key) && (haskey(m, equivNodeToRepNodes[key]) ==> val == m[equivNodeToRepNodes[key]])
 //@   loop 0
@@ -35,14 +35,14 @@ package soymsg
 //@     invariant[base-names-listed-once] forall(j, 0, len(baseNames), forall(k, 0, j, !same(baseNames[j], baseNames[k])))
 //@   loop 2
 //@     invariant[base-names-are-the-map's-keys] forall(j, 0, len(baseNames), haskey(baseNameToRepNodes, baseNames[j]))
-//@     invariant[base-names-not-reached-yet-are-free;C10] forall(j, rangeindex + 1, len(baseNames), !haskey(nameToRepNodes, baseNames[j]))
+//@     invariant[base-names-not-reached-yet-are-free;C10,C11] forall(j, rangeindex + 1, len(baseNames), !haskey(nameToRepNodes, baseNames[j]))
 //@   loop 3
 //@     invariant[base-names-are-the-map's-keys] forall(j, 0, len(baseNames), haskey(baseNameToRepNodes, baseNames[j]))
-//@     invariant[base-names-not-reached-yet-are-free;C10] forall(j, rangeindex__loop2 + 2, len(baseNames), !haskey(nameToRepNodes, baseNames[j]))
+//@     invariant[base-names-not-reached-yet-are-free;C10,C11] forall(j, rangeindex__loop2 + 2, len(baseNames), !haskey(nameToRepNodes, baseNames[j]))
 //@   loop 4
 //@     noterm
 //@     invariant[base-names-are-the-map's-keys] forall(j, 0, len(baseNames), haskey(baseNameToRepNodes, baseNames[j]))
-//@     invariant[base-names-not-reached-yet-are-free;C10] forall(j, rangeindex__loop2 + 2, len(baseNames), !haskey(nameToRepNodes, baseNames[j]))
+//@     invariant[base-names-not-reached-yet-are-free;C10,C11] forall(j, rangeindex__loop2 + 2, len(baseNames), !haskey(nameToRepNodes, baseNames[j]))
 //@   loop 5
 //@     orderassume forallof(a, string, forallof(b, string, haskey(nameToRepNodes, a) && haskey(nameToRepNodes, b) && a != b ==> nameToRepNodes[a] != nameToRepNodes[b]))
 //@   loop 6
@@ -133,3 +133,15 @@ package soymsg
 //@   props C10 C08 C09
 //@   nosafety
 //@   pure
+
+// C11: a translated string is cut at its {NAME} occurrences: the text between
+// two occurrences (and after the last) is a raw-text part, an occurrence
+// without its braces is a placeholder part, in the order of the string.
+//@ func Parts
+//@   props C11
+//@   nosafety
+//@   modifies *
+//@   at call (*regexp.Regexp).FindAllStringIndex#0 assert[placeholders-of-the-whole-string;C11] same(arg1, str) && arg2 == -1
+//@   at call store#0 assert[text-before-the-placeholder;C11] substr(val, str, pos) && len(val) == start - pos
+//@   at call store#2 assert[name-without-braces;C11] substr(val, str, start + 1) && len(val) == end - start - 2
+//@   at call store#4 assert[text-after-the-last-placeholder;C11] substr(val, str, pos) && len(val) == len(str) - pos
